@@ -874,8 +874,11 @@ def correspondence(run):
     terms, meta, terms64, idx64 = [], [], [], []
     for i, case in enumerate(gen_cases(run)):
         im = impl(cfg_of(case))
+        if too_big(case):          # first: triple_mode evaluates the inner operator
+            run.cov["skipped"] += 1
+            continue
         mode = triple_mode(im, case)
-        if too_big(case) or mode == "skip":
+        if mode == "skip":
             run.cov["skipped"] += 1
             continue
         plain, traced, ran = observe(im, case)
@@ -1105,6 +1108,8 @@ def replay(run, data):
         plain, traced, ran = observe(im, case)
         if plain != traced:
             return False
+        if too_big(case):
+            return True
         mode = triple_mode(im, case)
         if mode == "skip":
             return True
